@@ -585,3 +585,55 @@ where
 {
     Err("Not enough shares to recover original secret")
 }
+
+// ---------------------------------------------------------------------------
+// `Sharks::recover` as a recorder: what does adss::recover hand to the Shamir layer?
+// ---------------------------------------------------------------------------
+pub static mut REC_T: u32 = 0x5EED_0401;
+pub static mut REC_N: usize = 0x5EED_0403;
+pub static mut REC_DISTINCT: usize = 0x5EED_0405;
+pub static mut REC_CALLS: usize = 0x5EED_0407;
+/// records the threshold it is called with, the number of points and the number of pairwise
+/// distinct points (up to 4 points), then refuses
+pub fn sharks_recover_record<'a, T>(this: &star_sharks::Sharks, shares: T) -> Result<Vec<u8>, &'static str>
+where
+    T: IntoIterator<Item = &'a star_sharks::Share>,
+    T::IntoIter: Iterator<Item = &'a star_sharks::Share>,
+{
+    let mut xs = [[0u64; 3]; 4];
+    let mut n = 0usize;
+    let mut d = 0usize;
+    let mut it = shares.into_iter();
+    let mut k = 0;
+    while k < 5 {
+        match it.next() {
+            None => break,
+            Some(s) => {
+                let lx = fp_limbs(&s.x);
+                let mut dup = false;
+                let mut i = 0;
+                while i < 4 {
+                    if i < n && xs[i][0] == lx[0] && xs[i][1] == lx[1] && xs[i][2] == lx[2] {
+                        dup = true;
+                    }
+                    i += 1;
+                }
+                if n < 4 {
+                    xs[n] = lx;
+                }
+                n += 1;
+                if !dup {
+                    d += 1;
+                }
+            }
+        }
+        k += 1;
+    }
+    unsafe {
+        REC_T = this.0;
+        REC_N = n;
+        REC_DISTINCT = d;
+        REC_CALLS = if REC_CALLS == 0x5EED_0407 { 1 } else { REC_CALLS + 1 };
+    }
+    Err("Not enough shares to recover original secret")
+}
